@@ -35,6 +35,7 @@ type Query {
   pick(i: Int!): Thing
   join(words: [String]): String
   span(r: Range): String
+  chief: Keeper
 }
 type Mutation {
   rename(old: String!, new: String!): Keeper
@@ -309,6 +310,12 @@ type Query struct {
 	Tags    []string
 	Nums    []int
 	Boss    *Keeper
+	// AltKeeper registers *Keeper for the type Keeper up front, so that the
+	// second Go struct behind that type (Chief) never wins the binding.
+	AltKeeper bool
+	// Chief is served by a second Go struct for the GraphQL type Keeper (other
+	// field order); only plain struct fields are ever selected beneath it.
+	Chief *KeeperAlt
 
 	// GoDirectives makes the schema bind Keeper and Cell with @go directives.
 	GoDirectives bool
@@ -349,6 +356,16 @@ type Keeper struct {
 	MottoS string
 
 	q *Query
+}
+
+// KeeperAlt is a second Go struct behind the GraphQL type Keeper: the same
+// field names in another order (an application with two representations of
+// one type, e.g. a database row and a cache entry).
+type KeeperAlt struct {
+	Rank string
+	Age  int
+	Note string
+	Name string
 }
 
 // Dog is an animal.
@@ -586,6 +603,7 @@ func GenZoo(t *tape.Tape) *Query {
 		q.Keepers = append(q.Keepers, nil)
 	}
 	q.Boss = q.Keepers[0]
+	q.Chief = &KeeperAlt{Rank: q.Boss.Rank, Age: q.Boss.Age + 1, Note: "alt", Name: "chief-" + q.Boss.Name}
 	for _, k := range q.Keepers {
 		if k == nil {
 			continue
@@ -609,6 +627,15 @@ func GenZoo(t *tape.Tape) *Query {
 		q.Nums = append(q.Nums, i*7)
 	}
 	return q
+}
+
+// AltRequests select plain fields of Keeper through both Go structs that serve
+// it (boss, keepers: Keeper; chief: KeeperAlt, other field order).
+var AltRequests = []string{
+	"{ chief { name age rank } }",
+	"{ boss { name age rank } }",
+	"{ c: chief { rank name } b: boss { rank name age } }",
+	"{ keepers { age name } chief { age name } }",
 }
 
 // DrawMixed draws the raw / wrapped assignment of a mixed root.
@@ -685,6 +712,8 @@ func zooField(q *Query, obj interface{}, name string, args map[string]interface{
 			return o.Nums, nil
 		case "boss":
 			return o.Boss, nil
+		case "chief":
+			return o.Chief, nil
 		case "relay":
 			return relay(o, toInt64(args["n"])), nil
 		case "pick":
@@ -756,6 +785,15 @@ func zooField(q *Query, obj interface{}, name string, args map[string]interface{
 			pad, _ := args["pad"].(bool)
 			return o.Code(pad), nil
 		}
+	case *KeeperAlt:
+		switch name {
+		case "name":
+			return o.Name, nil
+		case "age":
+			return o.Age, nil
+		case "rank":
+			return o.Rank, nil
+		}
 	case *Dog:
 		switch name {
 		case "name":
@@ -822,6 +860,9 @@ func typeNameOf(obj interface{}) string {
 func gqlName(goName string) string {
 	if goName == "GridCell" {
 		return "Cell"
+	}
+	if goName == "KeeperAlt" {
+		return "Keeper"
 	}
 	return goName
 }
@@ -1113,6 +1154,11 @@ func NewZoo(q *Query, strat Strategy) (*Zoo, error) {
 	if !q.GoDirectives && !q.NoRegister {
 		// the Go type behind Cell has another name: bound by registration only
 		if err := z.Root.RegisterType(&GridCell{}, "Cell"); err != nil {
+			return nil, err
+		}
+	}
+	if q.AltKeeper {
+		if err := z.Root.RegisterType(&Keeper{}, "Keeper"); err != nil {
 			return nil, err
 		}
 	}
